@@ -282,6 +282,9 @@ EncToksX(g, e) == {x.t : x \in g.enc[e].tgx}
 MustOpen(g, u, e) == EncToks(g, e) \cap g.usk[u].must # {}
 MustNotOpen(g, u, e) == EncToksX(g, e) \cap g.usk[u].may = {}
 
+\* well-formedness of the reference state itself: what a key is obliged to be able to use is allowed to it
+GhostWF(g) == \A u \in DOMAIN g.usk : g.usk[u].must \subseteq g.usk[u].may /\ g.usk[u].grant \subseteq g.usk[u].grant0
+
 \* why may key u not use target x of an encapsulation (for attribution)
 Reason(g, u, x) ==
     LET k == g.usk[u]
